@@ -444,7 +444,7 @@ func init() {
 				} else if front == "slicenb" && r.Intn(3) == 0 {
 					n += r.Intn(3) // declared but unused variables
 				}
-				cfg := gen.Cfg(false, 0, 0, false, false, true)
+				cfg := gen.Cfg(false, 0, 0, false, false, i%3 == 0) // white-box events for a third of the cases (long traces)
 				var ev []gen.M
 				switch r.Intn(3) {
 				case 0:
